@@ -201,11 +201,58 @@ def run(ctx, vlib):
     diffs += mp["diffs"]
     classes.update(mp["classes"])
     nontriv += mp["evaluations"] // 2
-    return dict(evaluations=len(cases) + len(jl) + mp["evaluations"], distinct_nontrivial=nontriv, samples=samples, classes=classes,
+    cs = csv_mem_vs_stream(ctx, vlib)
+    failing += cs["failing"]
+    classes.update(cs["classes"])
+    nontriv += cs["evaluations"] // 2
+    return dict(evaluations=len(cases) + len(jl) + mp["evaluations"] + cs["evaluations"], distinct_nontrivial=nontriv, samples=samples, classes=classes,
                 failing=failing, diffs=diffs, known_lines=known,
                 rule="random sequences (<= 40) of the nine CBinaryStreamReader operations over data of length 0..3K (lengths and positions at K-1,K,K+1,2K-1,..,3K), boundary scripts for every squeeze size / window edge, the callers' ReadByChunks loop, x stream kinds {istringstream, short-read seekable streambuf 1..k bytes per underflow, non-seekable streambuf} x K in %s; every implementation trace on a seekable stream is additionally checked by the extracted reference reader; `is` ops validate the modelled istream; document level: MsgPack read sequences (every first byte x tails, random documents, truncations, corruptions, documents shifted across the chunk boundary by a leading string of every length around 0/256/512) through the string reader and the stream reader (chunk 256 and 8), which must agree with each other and with the MsgPack model; non-trivial = distinct case that refills the window or seeks" % ks,
                 exhaustive=False, broken="correspondence stream model (M-BSR / M-IS) vs binary_stream_reader.cpp (drv_stream)",
                 extra=dict(chunk_sizes=ks, hook=S.hook_present(vlib), reference_checked=len(jl), reference_rejected=len(rejected), corpus_lines_skipped_for_missing_hook=len(skipped)))
+
+
+def csv_mem_vs_stream(ctx, vlib):
+    """document level, CSV: the same bytes loaded from memory and from a stream must give the same rows (or both fail);
+    document lengths are placed around the multiples of the 256-byte chunk of the encoded stream reader, with and
+    without a final line break, LF and CRLF, a quoted field straddling the boundary (seeded change S13)."""
+    import csv_common
+    impl = csv_common.drivers(vlib)[0]
+    rng = ctx["rng"]
+    cases = []
+    thorough = ctx["tier"] == "thorough"
+    for ncols in (1, 2, 3):
+        hdr = ["k%d" % j for j in range(ncols)]
+        keys = ",".join(h.encode().hex() for h in hdr)
+        for target in ([255, 256, 257, 511, 512, 513, 768, 1024] if not thorough else list(range(250, 262)) + list(range(506, 518)) + [767, 768, 769, 1023, 1024, 1025, 2048]):
+            for eol in ("\r\n", "\n"):
+                for final in (True, False):
+                    for quoted in (False, True):
+                        lines = [",".join(hdr)]
+                        body = lambda: eol.join(lines) + (eol if final else "")
+                        # fill with rows, then pad the last field so that the document has exactly `target` bytes
+                        while len(body()) < target - 40:
+                            lines.append(",".join(str(rng.randint(0, 9999)) for _ in hdr))
+                        pad = target - len(body()) - len(eol) - (ncols - 1) * 2 - (2 if quoted else 0)
+                        if pad < 1:
+                            continue
+                        last = "x" * pad
+                        if quoted:
+                            last = '"' + last[: pad // 2] + ("," if pad > 2 else "") + last[pad // 2 + 1:] + '"' if pad > 2 else '"' + last + '"'
+                        lines.append(",".join(["1"] * (ncols - 1) + [last]))
+                        doc = body().encode()
+                        for kind in ("mem", "stream"):
+                            cases.append("csvr %s 2c %s %s" % (kind, keys, doc.hex()))
+    outs = vlib.run_driver(impl, cases)
+    failing, classes = [], {}
+    for i in range(0, len(cases), 2):
+        a, b = outs[i], outs[i + 1]
+        key = "csv mem-vs-stream -> %s" % ("equal" if a == b else "DIFFERENT")
+        classes[key] = classes.get(key, 0) + 1
+        if a != b and len(failing) < 20:
+            failing.append(dict(driver="csv", case=cases[i + 1], implementation=b[:300], model=a[:300], judge="FAIL",
+                                why="the same CSV bytes load differently from a stream than from memory"))
+    return dict(evaluations=len(cases), failing=failing, classes=classes)
 
 
 def replay(rp, vlib):
